@@ -412,6 +412,32 @@ func c04Lib(c *Ctx) {
 		c.rep.Evaluations++
 	}
 	qb.flush()
+	// (1b) strings.Index / slicing at the offset / strings.Contains for a one-character needle (what the translated
+	//      sendBackResponse uses to split the consumer URL): Lib.indexChar, byteTake, byteDrop
+	ib := &batch{c: c, site: "lib byteidx"}
+	for i := 0; i < n; i++ {
+		s := c04RandString(rng, rng.intn(14))
+		if rng.chance(60) {
+			s += []string{"#", "?", "#frag", "?a=1", "é#ü?", "?x#y?z#"}[rng.intn(6)] + c04RandString(rng, rng.intn(5))
+		}
+		if !utf8.ValidString(s) {
+			continue
+		}
+		needle := []string{"#", "?"}[rng.intn(2)]
+		j := strings.Index(s, needle)
+		has := "0"
+		if strings.Contains(s, needle) {
+			has = "1"
+		}
+		want := fmt.Sprintf("%d %s", j, has)
+		if j >= 0 {
+			want += " " + tokStr(s[:j]) + " " + tokStr(s[j:])
+		}
+		s2 := s
+		ib.add("lib byteidx "+tokStr(s)+" "+tokStr(needle), want, func() map[string]interface{} { return map[string]interface{}{"input": s2, "needle": needle} })
+		c.rep.Evaluations++
+	}
+	ib.flush()
 	// (2) the verifier of the theorems vs the independent Go verifier, on queries the real BuildRedirectQuery assembles
 	//     (statement of C04_redirect_query on the real function) and on mutated queries
 	rb := &batch{c: c, site: "lib rverify"}
